@@ -39,9 +39,15 @@ def run(ctx):
         if r["status"] == "ok":
             continue
         if r["status"] == "stalled_model_not_stuck":
-            raise C.ToolError("run %s made no hook progress for the watchdog period but the specification is not stuck in the reached state: timeout, no verdict" % r["id"])
+            # The watchdog only fires when, for the whole period, no hook event arrived AND no thread of the process was
+            # runnable or in I/O (so it is not a slow machine): every thread is blocked. The specification still has an
+            # enabled step in the state the trace reaches => the implementation lost a wake-up or blocks while holding
+            # something another thread needs. That is a termination violation of the code, not of the design.
+            r["detail"] = ("all threads blocked for the watchdog period although the specification has an enabled step in the reached state "
+                           "(lost wake-up / blocking while holding a lock)")
+            r["status"] = "blocked"
         path = pipe.keep_replay(ctx, r)
         ctx.violation(r["id"], {"kind": "TRACE-Pipeline", "run": {k: r.get(k) for k in ("id", "input", "threads", "cap", "perturb", "result", "msg", "stalled")},
                                 "detail": r.get("detail"), "event": r.get("event"), "context": r.get("context"), "cex_tail": r.get("cex_tail"),
                                 "trace": path, "sig": {"status": r["status"], "mode": "single" if r["input"].startswith("single") else "multi"}})
-    ctx.assumptions += ["a run that stops emitting hook events is a violation only if the specification has no enabled step in the state reached by its trace (otherwise exit 2)"]
+    ctx.assumptions += ["a run is declared blocked only when for 30 s no hook event arrives and no thread of the process is runnable or in I/O (thread states from /proc); a merely slow run is never a violation"]
